@@ -36,6 +36,7 @@ ObsInit(DK) ==
     mark  |-> [dk \in DK |-> NoMark],
     dirty |-> [dk \in DK |-> FALSE],   \* a purge could not delete the persisted copy (the store refused)
     stuck |-> {},
+    early |-> {},     \* requests released from the queue while the fetch they queued behind had not ended
     kills |-> 0 ]
 
 NewReq(k, d, m, pe0) ==
@@ -49,6 +50,7 @@ NewReq(k, d, m, pe0) ==
     waited |-> FALSE,         \* was parked behind another request's fetch
     waitVer |-> 0,            \* version published by the fetch it was parked behind (0: none/uncacheable)
     waitAt |-> 0,             \*   and the clock value stamped on it
+    behind |-> 0,             \* the fetching request it queued behind (0: none known)
     fetched |-> 0,            \* version this request obtained from the upstream (0: none)
     ver |-> 0,                \* version delivered to the client (0: none)
     age |-> -1, ageNow |-> 0, \* Age computed for a hit and the clock value it was computed from
@@ -105,8 +107,11 @@ ODecide(o0, r, label, wait, now, v) ==
                            !.markUntil = m.until, !.markVer = m.ver]
       o1 == IF q.loaded /\ q.viaDirty /\ label = "hit" /\ v \in DOMAIN o.ver
             THEN [o EXCEPT !.ver[v].fetchPe = o.pe[<<q.disp, q.key>>]] ELSE o
+      owners == {f \in DOMAIN o.req : f # r /\ o.req[f].ent = q.ent /\ o.req[f].label = "fetching"
+                                       /\ o.req[f].phase \in {"decided", "upstream", "fetched"}}
   IN [o1 EXCEPT !.req[r] =
         [q1 EXCEPT !.phase = IF wait THEN "waiting" ELSE "decided",
+                   !.behind = IF wait /\ owners # {} THEN CHOOSE f \in owners : TRUE ELSE 0,
                    !.label = IF wait THEN q.label ELSE label,
                    !.waited = q.waited \/ wait,
                    !.decidedAt = now]]
@@ -159,7 +164,10 @@ OHfp(o0, e, d, k, now, eff) ==
 
 (* a parked request was released *)
 OWoken(o0, r) ==
-  LET o == GC(o0) IN [o EXCEPT !.req[r].phase = "looked"]
+  LET o == GC(o0)
+      f == o.req[r].behind
+      tooEarly == f \in DOMAIN o.req /\ o.req[f].phase \in {"decided", "upstream"} /\ o.req[f].label = "fetching"
+  IN [o EXCEPT !.req[r].phase = "looked", !.early = IF tooEarly THEN @ \cup {r} ELSE @]
 
 (* the request ended: final label, error class, version delivered to the client *)
 OEnd(o0, r, label, err, v) ==
@@ -209,6 +217,9 @@ InFlight(o) ==
 P_SingleFlight(o) ==
   \A r1, r2 \in InFlight(o) :
      (o.req[r1].disp = o.req[r2].disp /\ o.req[r1].key = o.req[r2].key) => r1 = r2
+
+(* C01: a request that queued behind a fetch is not released before that fetch has ended *)
+P_NoEarlyRelease(o) == o.early = {}
 
 (* C01: requests parked behind a fetch that turned out cacheable are answered from it, at no
    upstream cost, provided they resume within its lifetime and the entry was not purged/evicted *)
